@@ -59,5 +59,28 @@ CHECKS["C16"] = dict(
           dict(name="fuzz-decode", kind="fuzz", fuzz="FuzzDecode", thorough=dict(fuzztime=240, workers=8))],
 )
 
+CHECKS["C20"] = dict(
+    level="exploration",
+    technique="round-trip and rejection property testing (rapid) of license String/Parse and the three key ciphers; hostile license strings parsed in a "
+              "re-executed child process under an address-space ceiling (death = violation or listed finding)",
+    level_text="Generated licenses of all three versions (edge-valued contract/signature/index) must parse back to the same accessors and an equivalent "
+               "cipher; generated 24-byte keys must encrypt to 32 URL-safe characters, decrypt back, and distinct keys must give distinct strings (pairwise "
+               "and in a 20k-100k sample); strings that are not 32 valid characters must be rejected with an error; license.Parse on generated hostile "
+               "strings must return a license or an error - aborts are observed in a child worker.",
+    level_note="Trusted: deterministic license construction from exported struct fields, the child-worker protocol (unacknowledged input = culprit), "
+               "RLIMIT_AS 3 GB for the child. 2^-32-probability collisions are not reachable by sampling.",
+    rule="rapid-generated license field tuples / keys / strings; non-trivial = license with non-zero contract or signature, key with non-zero salt, "
+         "rejected string of length exactly 32, parsed string of length >= 5; distinct = distinct case value.",
+    assumptions=["the v2/v3 character-level mutations run only in the child worker; in-process v2/v3 strings are truncations / suffix changes"],
+    legs=[
+        dict(name="license", test="^TestLicenseRoundtrip$", quick=dict(n=3000, procs=1, timeout=300), thorough=dict(n=200000, procs=2, timeout=1800)),
+        dict(name="key", test="^TestKeyRoundtrip$", quick=dict(n=20000, procs=2, timeout=300), thorough=dict(n=2000000, procs=4, timeout=1800)),
+        dict(name="collisions", test="^TestNoCollisions$", kind="plain", quick=dict(n=20000, procs=1, timeout=300), thorough=dict(n=300000, procs=2, timeout=1800)),
+        dict(name="reject", test="^TestDecryptRejects$", quick=dict(n=20000, procs=2, timeout=300), thorough=dict(n=2000000, procs=4, timeout=1800)),
+        dict(name="parse", test="^TestParseArbitrary$", quick=dict(n=20000, procs=2, timeout=300), thorough=dict(n=2000000, procs=4, timeout=1800)),
+        dict(name="parse-hostile", test="^(TestProbeParseOOM|TestParseHostile)$", quick=dict(n=3000, procs=2, timeout=300), thorough=dict(n=200000, procs=4, timeout=1800)),
+    ],
+)
+
 for _k in CHECKS:
     NOT_APPLICABLE.pop(_k, None)
